@@ -6,6 +6,7 @@
 package c13
 
 import (
+	"context"
 	"encoding/json"
 	"fmt"
 	"sort"
@@ -27,11 +28,14 @@ type Case struct {
 	ExplicitTx bool        `json:"explicit_tx"`
 	HookSets   bool        `json:"hook_sets"`           // before-hooks of root users set Age (directly on create, via SetColumn on update)
 	HookWrites bool        `json:"hook_writes"`         // BeforeSave/BeforeDelete of root users write a marker row through their tx
+	HookCtx    bool        `json:"hook_ctx,omitempty"`  // with hook_writes: the hook writes through tx.WithContext(ctx) instead of tx itself
 	ErrClass   string      `json:"err_class,omitempty"` // the failing hook's error wraps this well-known error (simdrv.ClassError)
 	MaxSites   int         `json:"max_sites"`
 	Pick       int64       `json:"pick_seed"`
 	Only       []ops.Fault `json:"only,omitempty"`
 }
+
+type hookCtxKey struct{}
 
 type Prop struct{}
 
@@ -79,6 +83,7 @@ func (Prop) Gen(r *core.Rand, tier string) interface{} {
 	if r.Chance(40) {
 		c.ErrClass = r.Pick(append([]string{"notfound", "notfound"}, simdrv.Classes...))
 	}
+	c.HookCtx = c.HookWrites && r.Chance(40)
 	return c
 }
 
@@ -113,6 +118,7 @@ func (Prop) Shrink(ci interface{}) []interface{} {
 		func(v *Case) bool { x := v.HookSets; v.HookSets = false; return x },
 		func(v *Case) bool { x := v.HookWrites; v.HookWrites = false; return x },
 		func(v *Case) bool { x := v.ErrClass != ""; v.ErrClass = ""; return x },
+		func(v *Case) bool { x := v.HookCtx; v.HookCtx = false; return x },
 	} {
 		v := *c
 		if f(&v) {
@@ -172,7 +178,11 @@ func (p Prop) exec(c *Case, f *ops.Fault) (*execInfo, error) {
 			}
 		}
 		if c.HookWrites && (hc.Hook == "BeforeSave" || hc.Hook == "BeforeDelete") {
-			if err := hc.Tx.Create(&fam.Marker{Text: fmt.Sprintf("marker-%s-%d", hc.Hook, info.markers)}).Error; err != nil {
+			w := hc.Tx
+			if c.HookCtx {
+				w = w.WithContext(context.WithValue(hc.Tx.Statement.Context, hookCtxKey{}, "hook"))
+			}
+			if err := w.Create(&fam.Marker{Text: fmt.Sprintf("marker-%s-%d", hc.Hook, info.markers)}).Error; err != nil {
 				return fmt.Errorf("marker write through the hook's tx failed: %w", err)
 			}
 			info.markers++
